@@ -222,6 +222,7 @@ type Net struct {
 	injStats    *InjStats
 	solo        *soloBlocks
 	devMode     bool
+	wedged      bool
 	drift       bool // a node runs with a wrong cached proposer after a reload (NoProposerFix scenarios)
 	decision    int
 	decisions   []int // number of alternatives at each scheduling decision (reference runs)
@@ -614,6 +615,11 @@ func (nt *Net) step(n *Node, kind inputKind, d *delivery, toIdx int) {
 	hBefore := n.cs.VerifRoundState().Height
 	n.gate.Go <- struct{}{}
 	select {
+	case <-time.After(4 * wedgeTimeout):
+		// the input was taken but never finished: the consensus goroutine is blocked for good
+		nt.Mon.report("C12", map[string]string{"kind": "node-wedged"}, fmt.Sprintf("node %d never finished processing %s (blocked on a lock, a full queue or a hook)", n.Idx, desc))
+		nt.wedged = true
+		n.alive = false
 	case <-n.gate.Idle:
 		nt.collect(n)
 		nt.Mon.afterStep(n)
@@ -704,6 +710,10 @@ func (nt *Net) Run() *Result {
 	}
 	res := &Result{}
 	for nt.Steps < maxSteps {
+		if nt.wedged {
+			res.Stalled = true
+			break
+		}
 		if nt.allDone() {
 			res.Done = true
 			break
